@@ -1,5 +1,5 @@
 # C15: constants, enum members and opcodes carry the schema's values into Go: the generated package is compiled and run.
-import os, shutil, codecs
+import re, os, shutil, codecs
 from vcommon import *
 import frontgen, wirerun
 from frontgen import ENUM_BASES, wrap
@@ -185,6 +185,26 @@ def check(tier, seed, replay=None):
                     if len(run.violations) < 6:
                         run.violation({"what": "the schema is accepted but the generated opcode constant does not carry the schema's value", "schema": schema,
                                        "schema_value": val, "go_value": so.strip() if rc == 0 else ("does not build: " + se[:300])})
+        # layout between the attribute and its record: whatever is accepted still carries the opcode (integer and 4-character forms)
+        for lit, val in (("7", 7), ("0x12345678", 0x12345678), ('"ABCD"', 0x44434241)):
+            for gap in ("\n\n", "\n\n\n", "\r\n", "\r\n\r\n", " ", "", "\n\t", "\n// c\n", "\n\n// c\n", "\n// c\n\n", " // c\n", "\n/* c */\n", "\n\n/* c */\n\n"):
+                for rec in ("struct A { int32 x; }", "message A { 1 -> int32 x; }", "union A { 1 -> struct B { int32 x; } }", "readonly struct A { int32 x; }"):
+                    schema = "// head\n\n[opcode(%s)]%s%s\n" % (lit, gap, rec)
+                    shutil.rmtree(d, ignore_errors=True)
+                    os.makedirs(os.path.join(d, "pkg"))
+                    open(os.path.join(d, "schema.bop"), "w", newline="").write(schema)
+                    rc, so, se = sh([bgen, os.path.join(d, "schema.bop"), os.path.join(d, "pkg", "gen.go"), "pkg", "0"], timeout=120)
+                    total += 1
+                    run.nontrivial("opcode %s, gap %r, %s" % (lit, gap, rec.split()[0]))
+                    if rc != 0:
+                        continue
+                    gen = open(os.path.join(d, "pkg", "gen.go")).read()
+                    m = re.search(r"AOpCode\s*(?:uint32\s*)?=\s*(0x[0-9a-fA-F]+|\d+)", gen)
+                    if not m or int(m.group(1), 0) != val:
+                        found = True
+                        if len(run.violations) < 6:
+                            run.violation({"what": "the schema is accepted but the generated package does not carry the record's opcode", "schema": schema, "schema_value": val,
+                                           "go_value": m.group(0) if m else "no AOpCode constant in the generated file"})
     finally:
         shutil.rmtree(d, ignore_errors=True)
     run.count("evaluations", total)
